@@ -59,14 +59,14 @@ static void child(const std::string& line, const char* outpath) {
             else if (k == vsched::K_RMW) g_ev.push_back(std::string("{\"e\":\"rmw\",\"t\":") + t + ",\"obj\":\"" + obj + "\",\"before\":" + std::to_string(before) + ",\"after\":" + std::to_string(after) + "}");
         }
     });
-    vsched::set_abort_handler([&](vsched::Result& r) { write_out(outpath, r); _exit(0); });
+    vsched::set_abort_handler([&](vsched::Result& r) { write_out(outpath, r); { vf::cov_flush(); _exit(0); } });
     auto res = vsched::run([&] {
         id0 = vsched::Runtime::new_object_id() + 1;
         if (kind == 0) { tlx::ThreadBarrierMutex bar(N); body_run(bar, yield, N, G); }
         else { tlx::ThreadBarrierSpin bar(N); body_run(bar, yield, N, G); }
     }, cfg);
     write_out(outpath, res);
-    _exit(0);
+    { vf::cov_flush(); _exit(0); }
 }
 
 int main(int argc, char** argv) {
